@@ -299,3 +299,36 @@ add('C16', 'random-walk-seed-random', HSF_, "            self.random_seed = 1\n"
 add('C16', 'seed-once-before-loop', HSF_, [("        while True:\n\n            # Intialize the random number generator", "        random.seed(self.random_seed)\n        while True:\n\n            # Intialize the random number generator"), ("            random.seed(self.random_seed)\n            \n", "            \n")], None, 'silent')
 add('C16', 'no-seed', HSF_, "            random.seed(self.random_seed)\n", "", 'fire', 'C16.R3')
 add('C16', 'honeyword-limit-not-decremented', HSF_, "                    limit = limit - num_generated_guesses\n                    if limit <= 0:\n                        break", "                    if limit <= num_guess_current:\n                        break", 'fire', 'C16.R4')
+
+# ---- C10 ------------------------------------------------------------------------------------------------------
+OPTF = 'lib_guesser/omen/optimizer.py'
+GSF = 'lib_guesser/omen/guess_structure.py'
+MCF_ = 'lib_guesser/omen/markov_cracker.py'
+add('C10', 'lookup-without-copy', OPTF, "return True, self.custom_copy( self.tmto_lookup[length][ip_ngram][target_level] )", "return True, self.tmto_lookup[length][ip_ngram][target_level]", 'fire', 'C10.R1')
+add('C10', 'update-without-copy', OPTF, "self.tmto_lookup[length][ip_ngram][target_level] = self.custom_copy(parse_tree)", "self.tmto_lookup[length][ip_ngram][target_level] = parse_tree", 'fire', 'C10.R1')
+add('C10', 'shallow-copy', OPTF, "            return [x[:] for x in input_list]", "            return list(input_list)", 'fire', 'C10.R1')
+add('C10', 'deep-copy', OPTF, "            return [x[:] for x in input_list]", "            return [list(x) for x in input_list]", 'silent')
+add('C10', 'key-uses-current-level', GSF, "                        self.optimizer.update(ip, length, optimize_level_target, result)", "                        self.optimizer.update(ip, length, cur_level, result)", 'fire', 'C10.R2')
+add('C10', 'one-construction-loses-ip-level', MCF_, [("                    target_level = self.target_level - self.cur_len[0] - self.cur_ip[0],\n                    optimizer = self.optimizer,\n                    )\n                return True\n\n            # No valid items at this level, check if we can go up a level\n            level += 1\n            index = 0\n            if level > self.max_level:\n                return False\n            elif level > working_target:", "                    target_level = self.target_level - self.cur_len[0],\n                    optimizer = self.optimizer,\n                    )\n                return True\n\n            # No valid items at this level, check if we can go up a level\n            level += 1\n            index = 0\n            if level > self.max_level:\n                return False\n            elif level > working_target:")], None, 'fire', 'C10.R3')
+add('C10', 'budget-clamped', MCF_, [("                target_level = self.target_level  - self.cur_len[0] - self.cur_ip[0],\n                optimizer = self.optimizer,\n                )\n\n        # Grab the next guess", "                target_level = max(self.target_level  - self.cur_len[0] - self.cur_ip[0], 0),\n                optimizer = self.optimizer,\n                )\n\n        # Grab the next guess")], None, 'fire', 'C10.R3')
+
+# ---- C11 ------------------------------------------------------------------------------------------------------
+EVP = 'lib_trainer/omen/evaluate_password.py'
+add('C11', 'scorer-loop-strict', OSCF, "            while end_pos <= pass_len:", "            while end_pos < pass_len:", 'fire', 'C11.R1')
+add('C11', 'scorer-no-preseed', OSCF, "        self.ln = ['10']", "        self.ln = []", 'fire', 'C11.R2')
+add('C11', 'scorer-ip-slice-short', OSCF, "            chunk = password[0:self.ngram-1]", "            chunk = password[0:self.ngram-2]", 'fire', 'C11.R1')
+add('C11', 'trainer-upper-bound-exclusive', EVP, "    if pw_len < omen_trainer.min_length or pw_len > omen_trainer.max_length:", "    if pw_len < omen_trainer.min_length or pw_len >= omen_trainer.max_length:", 'fire', 'C11.R1')
+add('C11', 'guesser-min-length-strict', OIOF, "                if (cur_length >= min_size):", "                if (cur_length > min_size):", 'fire', 'C11.R5')
+add('C11', 'guesser-counts-from-zero', OIOF, "            cur_length = 1\n", "            cur_length = 0\n", 'fire', 'C11.R2')
+add('C11', 'guesser-transition-count-off', OIOF, "grammar[name][level].append(cur_length - (min_size -1))", "grammar[name][level].append(cur_length - min_size)", 'fire', 'C11.R3')
+add('C11', 'ip-fields-swapped-on-write', OFO, 'file.write(str(data[\'ip_level\'])+ "\\t" + key + "\\n")', 'file.write(key + "\\t" + str(data[\'ip_level\']) + "\\n")', 'fire', 'C11.R7')
+add('C11', 'ngram-loader-rstrip', OIOF, "                line = line.rstrip('\\n\\r').split('\\t')", "                line = line.rstrip().split('\\t')", 'fire', 'C11.R6')
+
+# ---- C18 ------------------------------------------------------------------------------------------------------
+add('C18', 'length-le-ngram (pinned defect)', EVP, "                    if length < omen_trainer.ngram:", "                    if length <= omen_trainer.ngram:", 'fire', 'C18.R1')
+add('C18', 'level-minus-ip-strict (pinned defect)', EVP, "            if level_minus_ip >= 0:", "            if level_minus_ip > 0:", 'fire', 'C18.R1')
+add('C18', 'ln-strict', EVP, "                    if length_info[0] <= level_minus_ip:", "                    if length_info[0] < level_minus_ip:", 'fire', 'C18.R1')
+add('C18', 'guards-rewritten-equivalently', EVP, "            if level_minus_ip >= 0:", "            if not level_minus_ip < 0:", 'silent')
+add('C18', 'last-transition-le', EVP, "            if letter_level[0] == level:", "            if letter_level[0] <= level:", 'fire', 'C18.R1b')
+add('C18', 'probability-without-N', OFO, "        pcfg_omen_prob[level] = percentage_cracked/keyspace", "        pcfg_omen_prob[level] = num_instances/keyspace", 'fire', 'C18.R2')
+add('C18', 'ip-writer-skips-unseen', OFO, '            for key, data in omen_trainer.grammar.items():\n                file.write(str(data[\'ip_level\'])+ "\\t" + key + "\\n")', '            for key, data in omen_trainer.grammar.items():\n                if data[\'ip_count\'] == 0:\n                    continue\n                file.write(str(data[\'ip_level\'])+ "\\t" + key + "\\n")', 'fire', 'C18.R3')
